@@ -46,6 +46,12 @@ CLAIMED["C06"] = ("pool", "Theorems C06_holds/C06_no_stuck (no operation is stuc
                   POOL_NOTE + "Partial for interleavings: the lock-table translator (tools/lockfacts) is trusted; scheduler/RWMutex fairness and the 100 ms ticker are outside the model.", "DESIGN.md 4 C06")
 CLAIMED["C20"] = ("pool", "Theorem C20_holds, unguarded: after every event every pool connection and every replacement of a refresh in flight was last given the current address list and asked to connect; resolver errors change nothing. (Its failed first proof attempt produced the counterexample fixed by be2386d.)",
                   POOL_NOTE, "DESIGN.md 4 C20")
+CLAIMED["C01"] = ("pool", "Theorem C01_holds: on every legal model history the monitor P01 holds (key table of the code = the monitor's key->channel table; a BOUND/UNBIND call for a bound key whose channel is READY is placed on that channel by every picker that places it and IS placed by the most recent picker, across refresh swaps; with fallback off and the channel not READY it is never placed).",
+                  POOL_NOTE + "Guards: harness-legal histories (no operation referring to a non-existent pick/picker; the monitors are false on illegal ones, Example in Props_C01.v), fewer than 2^64 pool connections (uint64 evaluator).", "DESIGN.md 4 C01")
+CLAIMED["C08"] = ("pool", "Theorem C08_holds: fallback table entries always name READY pool connections; with fallback on a keyed call whose home is not READY is placed by the latest picker on the sticky stand-in if one exists, else on a READY channel (also above the watermark) which becomes the stand-in, else not placed; home READY again => home; a Pick never changes the key table.",
+                  POOL_NOTE + "Guards as C01.", "DESIGN.md 4 C08")
+CLAIMED["C09"] = ("pool", "Theorems C09_holds (cursor +1 mod 2^32 per round-robin BIND, slot = cursor mod n, handed out iff READY or context ended, blocked picks released exactly then, other picks leave the cursor alone), rr_cursor_init (cursor as a function of the number of BIND picks on every history), rr_window_fair (any n*k consecutive cursor values without 32-bit wrap hit every slot exactly k times) and rr_window_fair_refuted / c09_rr1_on_model (known finding RR1: uneven across the 2^32 wrap for n=3).",
+                  POOL_NOTE + "Guard: legal histories. PARTIAL for concurrency: the cursor is one atomic add (C10 policy Atomic), so distinct consecutive values are assigned under any interleaving; which call observes which value is unordered.", "DESIGN.md 4 C09")
 CLAIMED["C10"] = ("locks", "Generic lockset theorem C10_lockset_race_free / C10_table_race_free (Locks/DRF.v: every access follows its field's policy => no race in any consistent execution under the usage contract) instantiated by vm_compute on the access/acquire/block table REGENERATED from the five source files on every run by tools/lockfacts (flow-sensitive must/may-held lock sets, call-graph propagation); failing rows are confirmed with a -race stress harness as failing-input search.",
                   "PARTIAL: the translator and the hand-written Locks/Policy.v are trusted; publication arguments rest on pool invariants; aliasing through interfaces/closures beyond the handled cases, fields of foreign types and happens-before via channels are not seen. The race detector is only the search for a failing input, never the verdict.", "DESIGN.md 4 C10")
 CLAIMED["C12"] = ("stream", "unary_transparent for every invoker; for the stream wrapper a verified closed-set checker (Stream/ClosedSet.v, Check.v: check_prog p = true => every run of p, every interleaving/creation outcome/cancellation point, unbounded calls, satisfies the C12 monitor: single creation, first message visible, recv waits then delegates or returns error/ctx end, in-order delegation, no panic, mutex discipline, no lost wake-up, termination) instantiated by vm_compute on the instruction lists REGENERATED from gcp_interceptor.go by tools/streamir on every run; schedule-directed differential testing forces model-enumerated interleavings on the real wrapper.",
@@ -56,8 +62,8 @@ CLAIMED["C16"] = ("gme", "Theorems C16_holds, update_error_cases, failed_update_
                   "As C15. PARTIAL: goroutines are a census in the model; the harness compares it with runtime stacks (sampled).", "DESIGN.md 4 C16")
 
 PLANNED = {
-    "C01": "pool engine built (model, monitor, correspondence, fix commits; the check runs and catches seeded changes); registered once Props_C01.v carries its theorem",
-    "C03": "as C01", "C07": "as C01", "C08": "as C01", "C09": "as C01",
+    "C03": "pool engine built (model, monitor, correspondence, fix commits; the check runs and catches seeded changes); registered once Props_C03.v carries its theorem",
+    "C07": "as C03",
 }
 
 ENGINES = [
